@@ -80,6 +80,11 @@ def defs_all():
                                   Variant("U", "unit")]), ["Display", "AsRefStr", "IntoStaticStr"])
     add("transparent-owned", Item("E", [Variant("T", "tuple", [Field("Cap")], [TRANSPARENT]), Variant("U", "unit")]), ["Display", "AsRefStr"])
     add("customerr", Item("E", unit3(), metas=[EM("pety", "PErr"), EM("pefn", "perr_a")]), ["EnumString"])
+    # crate-rooted / super-rooted paths as VALUES of other options next to `crate = ".."` in one attribute: the keyword `crate`
+    # there is not the option `crate`; every derive still reads the configured path
+    add("customerr-crate-rooted", Item("E", unit3(), metas=[EM("pety", "crate::PErr"), EM("pefn", "crate::perr_a")]), strings + structs + ["VariantArray", "EnumTable"])
+    add("customerr-crate-rooted", Item("E", unit3(), metas=[EM("pefn", "super::perr_a"), EM("prefix", "crate"), EM("pety", "crate::PErr")]),
+        ["EnumCount", "EnumIter", "EnumProperty", "VariantArray", "EnumString", "Display"])
     add("constinto", Item("E", unit3(), metas=[EM("cis")]), ["IntoStaticStr", "AsRefStr"])
     add("generic", Item("E", [Variant("A", "tuple", [Field("G0")]), Variant("B", "unit"), Variant("C", "named", [Field("u8", "x")], [DISABLED])], tparams=1, cparams=1),
         ["EnumString", "Display", "AsRefStr", "IntoStaticStr", "VariantNames", "EnumIter", "EnumCount", "EnumIs", "EnumTryAs", "FromRepr",
